@@ -7,8 +7,9 @@ C23 — model of `matchglob` (lib/utils.cpp).
                      (pattern position, name position) pairs; the outer `for (;;)` pops the stack.  `run` is
                      fuelled; `Proofs/Glob.lean` proves that it always terminates and what it returns.
   * `dfs`            the same search written as structural recursion (what the stack machine computes).
-  * `matchglob`      = `dfs` on the `c_str()` views of the two strings (current code, `fx = false`);
-    `matchglobFixed` = the algorithm after /verif/proposed/C23-matchglob.diff (`fx = true`).
+  * `matchglob`      = `dfs` on the `c_str()` views of the two strings, for the code selected by `fixApplied`;
+    `matchglobPre`   = the algorithm before /verif/proposed/C23-matchglob.diff (`fx = false`, commit e33b503),
+    `matchglobFixed` = the algorithm after it (`fx = true`, /repo commit 1cf3800).
   * `Spec.Matches`   the documented meaning: `*` = any string, `?` = any single character.
 
 The flag `fx` selects the repaired algorithm: consecutive `*` are collapsed and no skipping is done when the
@@ -82,11 +83,17 @@ def dfs (fx ci : Bool) : Str → Str → Bool
       | [] => false
       | d :: n' => if c = '?' || litEq ci d c then dfs fx ci p n' else false
 
-/-- `matchglob(pattern, name, caseInsensitive)` of the current code -/
-def matchglob (p n : Str) (ci : Bool := false) : Bool := dfs false ci (cstr p) (cstr n)
+/-- SWITCH: is /verif/proposed/C23-matchglob.diff part of lib/utils.cpp?  (`true` since /repo commit 1cf3800) -/
+def fixApplied : Bool := true
 
-/-- `matchglob` after the proposed repair -/
+/-- `matchglob` before the repair (pinned commit e33b503) -/
+def matchglobPre (p n : Str) (ci : Bool := false) : Bool := dfs false ci (cstr p) (cstr n)
+
+/-- `matchglob` after the repair -/
 def matchglobFixed (p n : Str) (ci : Bool := false) : Bool := dfs true ci (cstr p) (cstr n)
+
+/-- `matchglob(pattern, name, caseInsensitive)` of the current code -/
+def matchglob (p n : Str) (ci : Bool := false) : Bool := dfs fixApplied ci (cstr p) (cstr n)
 
 /-- generous fuel for executing the stack machine in the driver -/
 def fuelFor (p n : Str) : Nat := (n.length + 2) ^ (p.length + 1) + 1
